@@ -846,6 +846,9 @@ class PureInterp:
                 setattr(o, t.attr, v)
             elif isinstance(o, FuncRef):
                 self.events.append(("setattr", o.name + "." + t.attr, v))
+            elif isinstance(o, ClassInfo):
+                # a class variable of the package (a creation counter, a registry): one value per analysed tree, shared by every evaluation
+                self.ctx.shared.setdefault("_class_vars", {})[(f"{o.module.name}.{o.name}", t.attr)] = v
             else:
                 raise Unsupported("attribute store")
         else:
@@ -869,6 +872,9 @@ class PureInterp:
 
     def _class_attr(self, cls, name):
         """A plain class-level attribute (constant table, not an attrs/dataclass field declaration), looked up along repo base classes."""
+        cv = self.ctx.shared.get("_class_vars", {}) if hasattr(self.ctx, "shared") else {}
+        if isinstance(cls, ClassInfo) and (f"{cls.module.name}.{cls.name}", name) in cv:
+            return cv[(f"{cls.module.name}.{cls.name}", name)]
         seen = set()
         stack = [cls]
         while stack:
@@ -1197,6 +1203,10 @@ class PureInterp:
             # attribute of a repo constant (e.g. OPTION_STR.format) or of an external module (os.path.join)
             base_canon = self.index.canon(n.value, module) if isinstance(n.value, (ast.Name, ast.Attribute)) else None
             bobj = self.index.lookup(base_canon) if base_canon else None
+            if isinstance(bobj, ClassInfo):
+                cv = self._class_attr(bobj, n.attr)     # a class variable (a counter, a table) read through the class
+                if cv is not Ellipsis:
+                    return cv
             if not (isinstance(bobj, tuple) and bobj[0] == "const"):
                 return FuncRef(canon)
         o = self.eval(n.value, env, module, depth)
